@@ -46,6 +46,10 @@ def plan(tier, seed):
     n_pairs = 48 if tier == 'quick' else 400
     for i in range(n_pairs):
         units.append({'kind': 'single', 'seed': seed * 8191 + i, 'cap': 350 if tier == 'quick' else None})
+    for i in range(4 if tier == 'quick' else 96):
+        # bytecode-instruction granularity (switches *inside* a statement), evenly spaced points
+        units.append({'kind': 'single', 'seed': seed * 8191 + 5000 + i, 'cap': 250 if tier == 'quick' else 2500, 'gran': 'instruction',
+                      'compile_only': True})
     for i in range(16 if tier == 'quick' else 160):
         units.append({'kind': 'multi', 'seed': seed * 8191 + 10000 + i, 'n': 120 if tier == 'quick' else 600})
     for i in range(8 if tier == 'quick' else 32):
@@ -212,11 +216,13 @@ def run_unit(u):
                                 'class': sig(strategy, sorted(b.split('(')[0] + b.split(')')[-1][:40] for b in bad)[:2])})
 
     if u['kind'] in ('single', 'multi'):
-        s = sched.Scheduler()
+        s = sched.Scheduler(u.get('gran', 'line'))
         s.install()
         try:
             if u['kind'] == 'single':
                 jobs = [make_job(rng, sv, doc), make_job(rng, sv, doc)]
+                while u.get('compile_only') and not all(j[0] == 'compile' for j in jobs):
+                    jobs = [make_job(rng, sv, doc), make_job(rng, sv, doc)]
                 if rng.random() < .25:
                     a, b = rng.sample(CUSTOMS, 2)
                     jobs = [('compile', a, 'fresh'), ('compile', b, 'fresh')]
@@ -241,7 +247,7 @@ def run_unit(u):
                         # with a per-schedule custom map the sequential reference can only be computed afterwards
                         refs, rerr = safe_reference(sv, doc, jobs_i) if fresh else (base_refs, None)
                         res['evals'] += 1
-                        bump('schedules_single')
+                        bump('schedules_single' if u.get('gran', 'line') == 'line' else 'schedules_single_instruction')
                         if s.deadlock:
                             bump('deadlock')
                         bad = judge(jobs_i, refs, results, cached, rerr)
